@@ -338,7 +338,7 @@ package reflect
 //@ spec func strLen(m Mem, a Int) Int = sgn32(R_u32(m, a))
 
 //@ func (t *tType) isBinary() (r bool)
-//@   requires wfTshape(t)
+//@   requires t != nil && (t.IsPointer ==> t.V != nil)
 //@   modifies nothing
 //@   ensures r == isBin(t)
 
@@ -739,11 +739,51 @@ package reflect
 //@   ensures c16_value: forall a Int :: {M[a]} a < old($brk) ==> M[a] == old(M[a])
 
 // --- descriptor construction (desc.go) ------------------------------------------------
-// newTType is not yet under contract (A-WF): it returns a well-formed descriptor of x.
+// newTType, caller side (A-WF): a well-formed descriptor of x.
 //@ spec uf func descOf(x *defs.Type) *tType
 //@ trusted func reflect.newTType(x *defs.Type) (t *tType)
 //@   modifies $brk, $maps
 //@   ensures t != nil && wfT(t) && t == descOf(x) && old($brk) <= $brk
+
+// newTType, what is proved of its code (C12): the node reflects the parsed type - tag, wire type,
+// kind (enum vs its i32 wire form), Go type, pointer-ness, the simple/fixed-size tables - its
+// children are the nodes of the parsed children, the dispatch fields are set by kind, and a
+// cached node is returned only for a key that determines all of this (A-KEY), so two Thrift
+// meanings of one Go type never share a node.
+//@ const ghost $inbuild = (Array Int Bool)
+//@ spec func keyBase(t *tType, s string, S reflect.Type) bool = t != nil && t.Tag == kTag(s, S) && t.WT == kWire(s, S) && t.T == (kEnum(s, S) ? tENUM : kWire(s, S)) && t.RT == S
+//@     && (t.IsPointer <==> kTag(s, S) == defs.T_pointer) && t.SimpleType == simpleTypes[t.T] && t.FixedSize == typeToSize[t.T]
+//@     && (t.T == tSTRING && !t.IsPointer ==> t.Tag == defs.T_string || t.Tag == defs.T_binary)
+//@ spec func keyKids(t *tType, s string, S reflect.Type) bool = (t.IsPointer ==> t.V != nil && t.V < $brk && !t.V.IsPointer) && (kTag(s, S) == defs.T_map ==> t.K != nil && t.V != nil)
+//@     && ((kTag(s, S) == defs.T_list || kTag(s, S) == defs.T_set) ==> t.V != nil)
+//@ spec func nodeOf(t *tType, x *defs.Type) bool = keyBase(t, typeStr(x), x.S) && keyKids(t, typeStr(x), x.S)
+// the pool's New closure reads t.K / t.V lazily, when the first map of this type is decoded (A-POOL)
+//@ trusted func reflect.initOrGetMapTmpVarsPool(t *tType) (p *sync.Pool)
+//@   modifies $brk
+//@   ensures old($brk) <= $brk && (t.T == tMAP ==> p != nil)
+// nodes under construction ($inbuild) are already cached (newTType registers a node before it
+// descends, so that recursive types would terminate) but have no children yet
+//@ macro ttbelow = ttypes != nil && (forall a Int :: {$inbuild[a]} $inbuild[a] ==> a < $brk)
+//@ macro ttbase = forall k ttypesK :: {maphas(ttypes, k)} maphas(ttypes, k) && mapget(ttypes, k) != nil ==> mapget(ttypes, k) < $brk && keyBase(mapget(ttypes, k), k.T, k.S)
+//@ macro ttkids = forall k ttypesK :: {maphas(ttypes, k)} maphas(ttypes, k) && mapget(ttypes, k) != nil && !$inbuild[mapget(ttypes, k)] ==> keyKids(mapget(ttypes, k), k.T, k.S)
+//@ func newTType(x *defs.Type) (t *tType)
+//@   requires wfDT(x)
+//@   requires c12_below: $(ttbelow)
+//@   requires c12_base: $(ttbase)
+//@   requires c12_kids: $(ttkids)
+//@   requires c12_rank: forall k ttypesK :: {maphas(ttypes, k)} maphas(ttypes, k) && mapget(ttypes, k) != nil && $inbuild[mapget(ttypes, k)] ==> kRank(k.T, k.S) > dtRank(x)
+//@   modifies $brk, $maps, "H.tType.AppendFunc", $inbuild
+//@   panics when true
+//@   after Tag ghost $inbuild = store($inbuild, t, true)
+//@   exit ghost $inbuild = store($inbuild, t, sel(old($inbuild), t))
+//@   ensures c12_below: $(ttbelow)
+//@   ensures c12_base: $(ttbase)
+//@   ensures c12_kids: $(ttkids)
+//@   ensures c12_inbuild: $inbuild == old($inbuild)
+//@   ensures c12_stable: forall k ttypesK :: {maphas(ttypes, k)} old(maphas(ttypes, k)) && old(mapget(ttypes, k)) != nil ==> maphas(ttypes, k) && mapget(ttypes, k) == old(mapget(ttypes, k))
+//@   ensures c12_fresh: forall k ttypesK :: {maphas(ttypes, k)} maphas(ttypes, k) && mapget(ttypes, k) != nil && !(old(maphas(ttypes, k)) && old(mapget(ttypes, k)) != nil) ==> old($brk) <= mapget(ttypes, k)
+//@   ensures c12_node: nodeOf(t, x) && !$inbuild[t] && t < $brk
+//@   ensures old($brk) <= $brk
 
 // final value of the default after stripping pointers (the loop of fromDefsField)
 //@ spec uf func rvStrip(v reflect.Value) reflect.Value
@@ -928,7 +968,7 @@ package reflect
 //@ func appendList_I08(t *tType, b []byte, p unsafe.Pointer) (r []byte, err error)
 //@   abstract b, r
 //@   requires wfT(t)
-//@   requires c02_row: wfTshape(t) && (t.T == tLIST || t.T == tSET) && t.V.T == tBYTE && !t.V.IsPointer
+//@   requires c02_row: (t.T == tLIST || t.T == tSET) && t.V.T == tBYTE && !t.V.IsPointer
 //@   requires p != nil
 //@   modifies nothing
 //@   ensures c02_value: err == nil && r == W(t, M, p, b)
@@ -943,7 +983,7 @@ package reflect
 //@ func appendList_I16(t *tType, b []byte, p unsafe.Pointer) (r []byte, err error)
 //@   abstract b, r
 //@   requires wfT(t)
-//@   requires c02_row: wfTshape(t) && (t.T == tLIST || t.T == tSET) && t.V.T == tI16 && !t.V.IsPointer
+//@   requires c02_row: (t.T == tLIST || t.T == tSET) && t.V.T == tI16 && !t.V.IsPointer
 //@   requires p != nil
 //@   modifies nothing
 //@   ensures c02_value: err == nil && r == W(t, M, p, b)
@@ -958,7 +998,7 @@ package reflect
 //@ func appendList_I32(t *tType, b []byte, p unsafe.Pointer) (r []byte, err error)
 //@   abstract b, r
 //@   requires wfT(t)
-//@   requires c02_row: wfTshape(t) && (t.T == tLIST || t.T == tSET) && t.V.T == tI32 && !t.V.IsPointer
+//@   requires c02_row: (t.T == tLIST || t.T == tSET) && t.V.T == tI32 && !t.V.IsPointer
 //@   requires p != nil
 //@   modifies nothing
 //@   ensures c02_value: err == nil && r == W(t, M, p, b)
@@ -973,7 +1013,7 @@ package reflect
 //@ func appendList_I64(t *tType, b []byte, p unsafe.Pointer) (r []byte, err error)
 //@   abstract b, r
 //@   requires wfT(t)
-//@   requires c02_row: wfTshape(t) && (t.T == tLIST || t.T == tSET) && (t.V.T == tI64 || t.V.T == tDOUBLE) && !t.V.IsPointer
+//@   requires c02_row: (t.T == tLIST || t.T == tSET) && (t.V.T == tI64 || t.V.T == tDOUBLE) && !t.V.IsPointer
 //@   requires p != nil
 //@   modifies nothing
 //@   ensures c02_value: err == nil && r == W(t, M, p, b)
@@ -988,7 +1028,7 @@ package reflect
 //@ func appendList_ENUM(t *tType, b []byte, p unsafe.Pointer) (r []byte, err error)
 //@   abstract b, r
 //@   requires wfT(t)
-//@   requires c02_row: wfTshape(t) && (t.T == tLIST || t.T == tSET) && t.V.T == tENUM && !t.V.IsPointer
+//@   requires c02_row: (t.T == tLIST || t.T == tSET) && t.V.T == tENUM && !t.V.IsPointer
 //@   requires p != nil
 //@   modifies nothing
 //@   ensures c02_value: err == nil && r == W(t, M, p, b)
@@ -1003,7 +1043,7 @@ package reflect
 //@ func appendList_STRING(t *tType, b []byte, p unsafe.Pointer) (r []byte, err error)
 //@   abstract b, r
 //@   requires wfT(t)
-//@   requires c02_row: wfTshape(t) && (t.T == tLIST || t.T == tSET) && t.V.T == tSTRING && !t.V.IsPointer
+//@   requires c02_row: (t.T == tLIST || t.T == tSET) && t.V.T == tSTRING && !t.V.IsPointer
 //@   requires p != nil
 //@   modifies nothing
 //@   ensures c02_value: err == nil && r == W(t, M, p, b)
@@ -1018,7 +1058,7 @@ package reflect
 //@ func appendList_Other(t *tType, b []byte, p unsafe.Pointer) (r []byte, err error)
 //@   abstract b, r
 //@   requires wfT(t)
-//@   requires c02_row: wfTshape(t) && (t.T == tLIST || t.T == tSET) && !t.V.SimpleType
+//@   requires c02_row: (t.T == tLIST || t.T == tSET) && !t.V.SimpleType
 //@   requires p != nil
 //@   modifies nothing
 //@   ensures c02_value: err == nil ==> r == W(t, M, p, b)
@@ -1033,7 +1073,7 @@ package reflect
 //@ func appendListAny(t *tType, b []byte, p unsafe.Pointer) (r []byte, err error)
 //@   abstract b, r
 //@   requires wfT(t)
-//@   requires c02_row: wfTshape(t) && (t.T == tLIST || t.T == tSET)
+//@   requires c02_row: (t.T == tLIST || t.T == tSET)
 //@   requires p != nil
 //@   modifies nothing
 //@   ensures c02_value: err == nil ==> r == W(t, M, p, b)
@@ -1068,7 +1108,7 @@ package reflect
 //@ func appendMapAnyAny(t *tType, b []byte, p unsafe.Pointer) (r []byte, err error)
 //@   abstract b, r
 //@   requires wfT(t)
-//@   requires c02_row: wfTshape(t) && t.T == tMAP
+//@   requires c02_row: t.T == tMAP
 //@   requires p != nil
 //@   modifies nothing
 //@   ensures c02_value: err == nil ==> r == W(t, M, p, b)
@@ -1110,7 +1150,7 @@ package reflect
 //@ family appendMap_$K_$V(t *tType, b []byte, p unsafe.Pointer) (r []byte, err error) for K in BOOL I08 I16 I32 I64 ENUM STRING, V in BOOL I08 I16 I32 I64 ENUM STRING
 //@   abstract b, r
 //@   requires wfT(t)
-//@   requires c02_row: wfTshape(t) && t.T == tMAP && $(kc.$K) && $(vc.$V)
+//@   requires c02_row: t.T == tMAP && $(kc.$K) && $(vc.$V)
 //@   requires p != nil
 //@   modifies nothing
 //@   ensures c02_value: err == nil ==> r == W(t, M, p, b)
@@ -1128,7 +1168,7 @@ package reflect
 //@ family appendMap_$K_Other(t *tType, b []byte, p unsafe.Pointer) (r []byte, err error) for K in BOOL I08 I16 I32 I64 ENUM STRING Other
 //@   abstract b, r
 //@   requires wfT(t)
-//@   requires c02_row: wfTshape(t) && t.T == tMAP && $(kc.$K) && $(vc.Other)
+//@   requires c02_row: t.T == tMAP && $(kc.$K) && $(vc.Other)
 //@   requires p != nil
 //@   modifies nothing
 //@   ensures c02_value: err == nil ==> r == W(t, M, p, b)
@@ -1142,7 +1182,7 @@ package reflect
 //@ family appendMap_Other_$V(t *tType, b []byte, p unsafe.Pointer) (r []byte, err error) for V in BOOL I08 I16 I32 I64 ENUM STRING
 //@   abstract b, r
 //@   requires wfT(t)
-//@   requires c02_row: wfTshape(t) && t.T == tMAP && $(kc.Other) && $(vc.$V)
+//@   requires c02_row: t.T == tMAP && $(kc.Other) && $(vc.$V)
 //@   requires p != nil
 //@   modifies nothing
 //@   ensures c02_value: err == nil ==> r == W(t, M, p, b)
@@ -1226,16 +1266,21 @@ package reflect
 //@ macro rowpremise.mapAppendFuncs = wfTshape(t) && t.T == tMAP && t.K.T != tDOUBLE && !isBin(t.V)
 //@ macro rowkeys.mapAppendFuncs = t.K.T; t.V.T
 
+// what the dispatchers need to know about a node and its children (a consequence of wfTshape, stated
+// over the fields themselves so that the constructor can establish it while the node is being built)
+//@ spec func childOK(c *tType) bool = c != nil && c.SimpleType == simpleTypes[c.T] && (c.IsPointer ==> c.T == tSTRUCT && c.V != nil)
+//@     && (c.T == tSTRING && !c.IsPointer ==> c.Tag == defs.T_string || c.Tag == defs.T_binary)
+//@ spec func shapeLocal(t *tType) bool = t != nil && ((t.T == tLIST || t.T == tSET) ==> childOK(t.V)) && (t.T == tMAP ==> childOK(t.K) && childOK(t.V))
 //@ func updateListAppendFunc(t *tType)
 //@   reveal implementsAppend
-//@   requires wfTshape(t)
+//@   requires shapeLocal(t)
 //@   modifies t.AppendFunc
 //@   panics when t.T != tLIST && t.T != tSET
 //@   ensures c02_registered: implementsAppend(t)
 
 //@ func updateMapAppendFunc(t *tType)
 //@   reveal implementsAppend
-//@   requires wfTshape(t)
+//@   requires shapeLocal(t)
 //@   modifies t.AppendFunc
 //@   panics when t.T != tMAP
 //@   ensures c02_registered: implementsAppend(t)
